@@ -65,7 +65,11 @@ where
 
     fn rollback(&mut self) -> Result<()> {
         let bytes = self.base.read_current_change_file()?;
-        self.deserialize_then_undo_changes(&bytes)
+        self.deserialize_then_undo_changes(&bytes)?;
+        // Re-base the "previous" state on the restored one, so that a commit made right after
+        // a single rollback() records its changes against it (rollback_before did this already).
+        self.save_rollback_state();
+        Ok(())
     }
 
     fn find_rollback_files(&self) -> Result<BTreeMap<Stamp, PathBuf>> {
